@@ -82,7 +82,7 @@ func c09Exit(p *chk.Prog, r *chk.Report) {
 		h := f.ContainsPat("RECV.handleService(_, N, IPS, S, P, E, PR)", chk.H("N", name), chk.H("S", isParam(f, "svc")), chk.H("E", isParam(f, "epSlices")), chk.H("PR", rangeVal(f, loop)))
 		okLoop = !loopCanSkip(g, loop, h)
 		for _, c := range g.FindPat("RECV.handleService(_, N, IPS, ETC)") {
-			lbIPs = f.ObjOf(c.Node.(*ast.CallExpr).Args[2])
+			lbIPs = f.ObjOf(f.Resolve(c.Node.(*ast.CallExpr).Args[2]))
 		}
 	}
 	x.Check("SetBalancer:handle-loop", f.Pos(), okLoop, "", "the loop over c.protocols does not hand the service to handleService for every protocol")
